@@ -26,6 +26,10 @@ CHECKS = {
    text="(a) every sequence of <=2/3 7.3 request records x every 1-,2-,3-cut + byte-at-a-time through the production stream decoder vs a one-shot decoder; (b) every echo request the endpoint would emit for all data word sequences (<=4/5 words over a carry-rich alphabet, optional odd byte) x id x seq: fields at their offsets and an Internet checksum that verifies under a 64-bit fold; (c) every reply / error type x code x quoted-request shape (matching, non-matching, IP options, extension headers, every truncation) through deserialize + responded_echo_request + the 7.4 encoder.",
    note="ICMPv6 checksum is the kernel's (raw ICMPv6 sockets). Waiter histories on raw sockets (sub-check d) are reported separately in the evidence.",
    tech="bounded-exhaustive enumeration of inputs x segmentations on the real codec/serialiser vs RFC 792/4443/1071 reference"),
+ "C14": dict(cat="model_checking",
+   text="Every activity pattern over a horizon of 8 (quick) / 10 (thorough) steps of T/4+1ms (and T/2+1ms, and the exact grid T/4) - per step: idle / left transfers / right transfers / both / toggle back-pressure - executed on the production DuplexPipe under tokio's paused clock; oracle in virtual time: an idle-timer close happens only >= T after the last transfer, and a tunnel idle for 2T (+2 steps of timer granularity) is closed; endpoints released on close.",
+   note="Virtual time replaces real time (exact-grid equality is an artefact and only the safety half is checked there). Establishment / TLS-handshake timeouts are a separate sub-check reported in the evidence.",
+   tech="exhaustive enumeration of bounded activity histories on the real pipe under a controlled virtual clock"),
 }
 NOT_YET = "check not built yet in this round (planned, see DESIGN.md section 3)"
 
